@@ -722,7 +722,9 @@ class C19:
         captured = {"matched": 0}
         orig_copy = getattr(rebuild, "copypath", None) or getattr(drive.mod("utils"), "copypath", None)
 
-        def veto(ev, paths):
+        def veto(ev, paths, extra=None):
+            if ev == "open-w" and not (extra or {}).get("flags", 0) & (os.O_CREAT | os.O_TRUNC):
+                return False     # opening an existing file writable neither creates nor overwrites; the snapshot judges content
             targets = paths[-1:] if ev in ("shutil.copyfile", "shutil.copymode", "shutil.copystat") else paths
             for t in targets:
                 if t in ("/dev/null", "/dev/tty"):
